@@ -223,8 +223,9 @@ VARIABLES door, cmd
 vars == <<door, cmd>>
 NGiven(c) == Cardinality({o \in Opts \ {"url"} : Given(c, o)})
 IsBase(d, c) == d = "file" /\ c["url"] = "cli"
+Budget(d, c) == IF IsBase(d, c) THEN MaxGiven ELSE IF MaxGiven = 0 THEN 0 ELSE 1
 Allowed(d, c) ==
-  /\ NGiven(c) <= (IF IsBase(d, c) THEN MaxGiven ELSE IF MaxGiven = 0 THEN 0 ELSE 1)
+  /\ NGiven(c) <= Budget(d, c)
   /\ \/ AllInvalid
      \/ Cardinality({o \in Opts : Given(c, o)}) <= (IF IsBase(d, c) THEN 2 ELSE 1)
      \/ \A o \in HasInvalid : Kind(c, o) = "I" => c[o] = InvalidRep[o]
@@ -234,7 +235,9 @@ Give(o, n) == /\ ~Given(cmd, o)
               /\ cmd' = [cmd EXCEPT ![o] = n]
               /\ Allowed(door, cmd')
               /\ UNCHANGED door
-Next == \E o \in Opts : \E n \in Names[o] : Give(o, n)
+Next == \E o \in Opts : /\ ~Given(cmd, o)
+                         /\ (o = "url" \/ NGiven(cmd) < Budget(door, cmd))    \* a full command line has no successors
+                         /\ \E n \in Names[o] : Give(o, n)
 Spec == Init /\ [][Next]_vars
 
 ---------------------------------------------------------------------------
@@ -252,16 +255,17 @@ GivenReaches == \A o \in Opts \ {"request_cert", "request_cert_key", "database"}
                    (Given(cmd, o) /\ Kind(cmd, o) = "V") => FieldValue(door, cmd, o) = EffTab[o][cmd[o]]
 (* (b) a field none of whose options is given has its documented default                                                        *)
 DefaultsKept == \A f \in Fields : (\A o \in OptsOf(f) : ~Given(cmd, o)) => FieldValue(door, cmd, f) = Default[f]
-(* (c) giving one more option changes no field of another option                                                                *)
+(* (c) giving one more option changes no field of another option (evaluated on every command line that still has room for one   *)
+(* more option, i.e. over every enumerated command line of two or more options seen as "smaller one + one option")              *)
 Ext(o, n) == [cmd EXCEPT ![o] = n]
-Independent == \A o \in Opts : ~Given(cmd, o) => \A n \in Names[o] : \A f \in Fields \ FieldsOf(o) :
-                  FieldValue(door, Ext(o, n), f) = FieldValue(door, cmd, f)
+Independent == NGiven(cmd) < Budget(door, cmd) => \A f \in Fields : LET before == FieldValue(door, cmd, f) IN
+                  \A o \in Opts \ OptsOf(f) : ~Given(cmd, o) => \A n \in Names[o] : FieldValue(door, Ext(o, n), f) = before
 (* (d) an invalid value is always refused; a refusal persists when options are added, unless the added option is the missing one *)
 InvalidRefused == (\E o \in Opts : Kind(cmd, o) = "I") => Verdict(door, cmd) = "REJECT"
-RejectMonotone == \A o \in Opts : ~Given(cmd, o) => \A n \in Names[o] :
+RejectMonotone == NGiven(cmd) < Budget(door, cmd) => \A o \in Opts : ~Given(cmd, o) => \A n \in Names[o] :
                      \A r \in Reasons(door, cmd) : r \in Reasons(door, Ext(o, n)) \/ r[2] = o
 (* an undecided command line never becomes accepted by adding options (it stays undecided or is refused)                        *)
-UndecidedSticks == Verdict(door, cmd) = "U" => \A o \in Opts : ~Given(cmd, o) => \A n \in Names[o] : Verdict(door, Ext(o, n)) # "ACCEPT"
+UndecidedSticks == (NGiven(cmd) < Budget(door, cmd) /\ Verdict(door, cmd) = "U") => \A o \in Opts : ~Given(cmd, o) => \A n \in Names[o] : Verdict(door, Ext(o, n)) # "ACCEPT"
 (* (e) the per-phase settings never contradict the configuration record                                                         *)
 HypConsistent == \A k \in 1..Len(HPhases) : LET p == HPhases[k] IN
                    /\ Match(HypValue(door, cmd, p, "hmax"), FieldValue(door, cmd, "max_examples"))
@@ -283,9 +287,14 @@ HypDiff(d, c) == LET cells == {<<p, f>> \in (1..Len(HPhases)) \X (1..Len(HFields
                               ELSE LET x == CHOOSE y \in S : \A z \in S : y[1] < z[1] \/ (y[1] = z[1] /\ y[2] <= z[2])
                                    IN <<<<HPhases[x[1]], HFields[x[2]], HypValue(d, c, HPhases[x[1]], HFields[x[2]])>>>> \o go(S \ {x})
                  IN go(cells)
+ReasonSeq(d, c) ==      \* <<option, why>> for every reason of a refusal (the export form of Reasons)
+  PairsOf(OptSeq, LAMBDA o : Kind(c, o) = "I", LAMBDA o : "invalid")
+  \o (IF <<"file-schema-without-url", "url">> \in Reasons(d, c) THEN << <<"url", "file-schema-without-url">> >> ELSE << >>)
+  \o (IF <<"key-without-certificate", "request_cert">> \in Reasons(d, c) THEN << <<"request_cert_key", "key-without-certificate">> >> ELSE << >>)
+  \o (IF <<"authorization-twice", "-">> \in Reasons(d, c) THEN << <<"auth", "authorization-twice">> >> ELSE << >>)
 View(d, c) ==
   LET v == Verdict(d, c) IN
-  [door |-> d, verdict |-> v,
+  [door |-> d, verdict |-> v, reasons |-> ReasonSeq(d, c),
    cmd |-> PairsOf(OptSeq, LAMBDA o : Given(c, o), LAMBDA o : c[o]),
    diff |-> IF v = "ACCEPT" THEN PairsOf(FieldSeq, LAMBDA f : FieldValue(d, c, f) # BaseEff[f], LAMBDA f : FieldValue(d, c, f)) ELSE << >>,
    hdiff |-> IF v = "ACCEPT" THEN HypDiff(d, c) ELSE << >>]
